@@ -55,7 +55,9 @@ Definition key_table (J : list string) (a b : table) : table :=
 Definition sqlite_full_join (J : list string) (a b : table) : table :=
   sem_join false J J JLeft (sem_join false J J JLeft (key_table J a b) a) b.
 
-(* assert len(join_node.on_a) > 0 ; assert join_node.on_a == join_node.on_b  (AssertionError otherwise) *)
+(* used only when the linked SQLite is older than 3.39.0 (natural_join_to_near_sql tests sqlite3.sqlite_version_info); newer
+   engines get their own FULL JOIN, i.e. the join of Model/Sem.v.
+   assert len(join_node.on_a) > 0 ; assert join_node.on_a == join_node.on_b  (AssertionError otherwise) *)
 Definition sqlite_full_emul (on_a on_b : list string) (a b : table) : option table :=
   match on_a with
   | [] => None
@@ -69,9 +71,17 @@ Definition sqlite_full_emul (on_a on_b : list string) (a b : table) : option tab
    All of it is the join of Model/Sem.v under flavour fl_polars; nothing separate to model. *)
 
 (* ------------------------------------------------------------------ Pandas *)
-(* pd.merge(how, left_on, right_on, suffixes=("", "_tmp_right_col")) matches a NULL key with a NULL key; the loop after it
-   replaces each shared non-key column by "left, or right where left is null" and drops the suffixed copy *)
-Definition pandas_join (on_a on_b : list string) (jt : jointype) (a b : table) : table := sem_join true on_a on_b jt a b.
+(* pd.merge(how, left_on, right_on, suffixes=("", <suffix>)) matches a NULL key with a NULL key.  _natural_join_step therefore
+   looks for rows with a null key on each side; when BOTH sides have one, those rows get a marker column (positive row numbers
+   on the left, negative on the right, 0 elsewhere) that is appended to the key lists and dropped after the merge, so that a
+   null key matches nothing; otherwise it is the plain merge.  The loop after the merge replaces each shared column that has
+   a suffixed right copy by "left, or right where left is null" and drops the copy. *)
+Definition has_null_key_row (cs ks : list string) (t : table) : bool :=
+  existsb (fun r => existsb is_null (key_of cs ks r)) (rows t).
+Definition pandas_join (on_a on_b : list string) (jt : jointype) (a b : table) : table :=
+  if has_null_key_row (cols a) on_a a && has_null_key_row (cols b) on_b b
+  then sem_join false on_a on_b jt a b        (* merge with the marker column among the keys *)
+  else sem_join true on_a on_b jt a b.        (* plain pandas.merge *)
 
 (* the declared column arrangement of a result: rows re-read in the order `out` *)
 Definition reorder_rows (t : table) (out : list string) : list (list val) := map (fun r => map (get (cols t) r) out) (rows t).
